@@ -6,6 +6,9 @@ pub enum VarDecl {
     Interval { lb: i32, ub: i32 },
     Sparse { values: Vec<i32> },
     Bool,
+    /// a 0-1 variable created with `Solver::new_literal_for_predicate`: it is 1 exactly when the predicate
+    /// (over an earlier, non-Boolean variable) holds
+    PredLit { pred: Pred },
 }
 
 impl VarDecl {
@@ -18,36 +21,40 @@ impl VarDecl {
                 v.dedup();
                 v
             }
-            VarDecl::Bool => vec![0, 1],
+            VarDecl::Bool | VarDecl::PredLit { .. } => vec![0, 1],
         }
     }
     pub fn lb(&self) -> i32 {
         match self {
             VarDecl::Interval { lb, .. } => *lb,
             VarDecl::Sparse { values } => *values.iter().min().unwrap(),
-            VarDecl::Bool => 0,
+            VarDecl::Bool | VarDecl::PredLit { .. } => 0,
         }
     }
     pub fn ub(&self) -> i32 {
         match self {
             VarDecl::Interval { ub, .. } => *ub,
             VarDecl::Sparse { values } => *values.iter().max().unwrap(),
-            VarDecl::Bool => 1,
+            VarDecl::Bool | VarDecl::PredLit { .. } => 1,
         }
     }
     pub fn size(&self) -> u64 {
         match self {
             VarDecl::Interval { lb, ub } => (*ub as i64 - *lb as i64 + 1) as u64,
             VarDecl::Sparse { .. } => self.values().len() as u64,
-            VarDecl::Bool => 2,
+            VarDecl::Bool | VarDecl::PredLit { .. } => 2,
         }
     }
     pub fn contains(&self, v: i64) -> bool {
         match self {
             VarDecl::Interval { lb, ub } => v >= *lb as i64 && v <= *ub as i64,
             VarDecl::Sparse { values } => values.iter().any(|&x| x as i64 == v),
-            VarDecl::Bool => v == 0 || v == 1,
+            VarDecl::Bool | VarDecl::PredLit { .. } => v == 0 || v == 1,
         }
+    }
+    /// a variable over which literals can be formed
+    pub fn is_boolean(&self) -> bool {
+        matches!(self, VarDecl::Bool | VarDecl::PredLit { .. })
     }
     pub fn has_holes(&self) -> bool {
         match self {
